@@ -3,6 +3,12 @@
 Model: coq/Model/Dedup.v   Theorems: coq/Properties/C12.v
 Correspondence: the real BaseSampler.sample() is driven by a scripted generator; returned rows and the
 sequence of requested sizes are compared, exactly, with `sample_script` evaluated inside Coq.
+
+A *session* is one call of sample(): {dims, bs, budget, hist, script[, fail_at, hist_repr, draw_repr]} with points given as
+tuples of indices into the case's alphabet of floats.  A *case* is its main session plus decorations (round 4): sessions run
+before it on the same / another sampler object ("pre"), a session of another object run in the middle of it ("nested"), the
+representation (dtype, memory layout) of the history and of the arrays the generator returns, attributes reassigned after
+construction, numpy-integer option values, a real SearchSpace, a history array rewritten in place.
 """
 from __future__ import annotations
 
@@ -20,17 +26,83 @@ from common import cbool, clist, cnat, cz
 
 IMPORTS = "From Coq Require Import List ZArith.\nFrom BlackIt Require Import Model.Dedup."
 CASE_T = "nat * nat * list point * list (list point) * list point * list nat"
+VIEW_T = "nat * nat * nat * list point * list (list point) * list point * list point * list nat"
+VIEW_INPUT = "generator-returns-view-of-history"   # descriptor of the finding (harness/findings.d/C12.json)
+
+# distinct values that are "close" by any tolerance-based comparison: 1e6 vs 1e6+1 (relative 1e-6), 1e-9 vs 2e-9 vs the
+# zero below (absolute 1e-9): points are equal only if their coordinates are ==
+ALPHA_POOL = [-3.5, -1.0, -0.25, 0.5, 1.0, 2.75, 1e6, 1e6 + 1.0, 1e-9, 2e-9]
+# round 4: pairs that coincide in single precision / after rounding to any number of decimals / after any absolute or relative
+# tolerance, subnormals next to the zero, huge scales, integers beyond 2^53 where the spacing of doubles is 2
+NEAR_PAIRS = [(1e6, 1e6 + 1.0), (1e-9, 2e-9), (1e8, 1e8 + 1.0), (1.0, 1.0 + 2.0 ** -52), (5e-324, 1e-323),
+              (2.0 ** 53, 2.0 ** 53 + 2.0), (1e300, 1e300 * (1.0 + 2.0 ** -52)), (-1e8 - 1.0, -1e8)]
+EXTRA_POOL = [-2.0, 3.0, 7.0, 0.125, -1e300, 65504.0, 1e-300]
+DTYPES = ["float64", "float32", "int64", "int32", "float16"]
+LAYOUTS_HIST = ["C", "F", "rowstride", "colstride", "rev", "offset", "readonly"]
+LAYOUTS_DRAW = ["C", "F", "rowstride", "colstride", "rev", "offset"]
+NP_INTS = {None: int, "int64": np.int64, "int32": np.int32, "int8": np.int8, "uint8": np.uint8}
+DEFAULT_BUDGET = 5          # the documented default of max_deduplication_passes (samplers/base.py:43)
+SPACE = (-4.0, 4.0, 0.25)   # bounds and precision of the real SearchSpace handed over when case["space"] is set
+
+
+class ScriptedFault(RuntimeError):
+    """Raised by the scripted generator at the call the session names in `fail_at`."""
+
+
+def exact_in(v, dt):
+    """is the float v exactly representable in numpy dtype dt?"""
+    with np.errstate(all="ignore"):
+        try:
+            return float(np.array(v, dtype=float).astype(dt)) == v
+        except (OverflowError, ValueError):
+            return False
+
+
+def mk(vals, dims, rep):
+    """(n, dims) array of the given float values in the representation rep = {dtype, layout}; returns (array, base buffer)."""
+    n = len(vals)
+    dt = np.dtype((rep or {}).get("dtype", "float64"))
+    layout = (rep or {}).get("layout", "C")
+    with np.errstate(all="ignore"):
+        a = np.array(vals, dtype=float).reshape(n, dims).astype(dt)
+    if layout == "C":
+        return a, a
+    if layout == "readonly":
+        a.flags.writeable = False
+        return a, a
+    if layout == "F":
+        a = np.asfortranarray(a)
+        return a, a
+    if layout == "rowstride":       # every second row of a buffer whose other rows are copies of the real ones
+        big = np.repeat(a, 2, axis=0)
+        return big[::2], big
+    if layout == "colstride":       # every second column
+        big = np.repeat(a, 2, axis=1)
+        return big[:, ::2], big
+    if layout == "rev":             # negative row stride
+        big = a[::-1].copy()
+        return big[::-1], big
+    if layout == "offset":          # a window of a larger buffer (rows before and after it are copies of real rows, or zeros)
+        big = np.zeros((n + 3, dims), dtype=dt)
+        if n:
+            big[:2] = a[0]
+            big[2 + n:] = a[-1]
+        big[2:2 + n] = a
+        return big[2:2 + n], big
+    raise ValueError(layout)
 
 
 def run_impl(case):
-    """case = {dims, alphabet (sorted floats), bs, budget, hist (index tuples), plan}; plan drives the draws."""
+    """Run every session of the case on the real code; returns the observation of the main session, with those of the other
+    sessions under "pre" and "nested"."""
     from black_it.samplers.base import BaseSampler
 
     alpha = case["alphabet"]
-    dims = case["dims"]
-    plan = [list(b) for b in case["script"]]
+    inv = {v: i for i, v in enumerate(alpha)}
     nz = case.get("negzero") or [False]
     nzk = [0]
+    wrap_int = NP_INTS[case.get("np_ints")]
+    spaces = {}
 
     def val(c):
         """coordinate value; a zero is given as +0.0 or -0.0 (numerically equal, so the same point)"""
@@ -40,136 +112,329 @@ def run_impl(case):
             return -0.0 if nz[nzk[0] % len(nz)] else 0.0
         return v
 
+    def space_for(dims):
+        """a real SearchSpace (the generator is user-defined: its points need not be on the grid, nor inside the bounds)"""
+        if not case.get("space"):
+            return None
+        if dims not in spaces:
+            from black_it.search_space import SearchSpace
+
+            spaces[dims] = SearchSpace([[SPACE[0]] * dims, [SPACE[1]] * dims], [SPACE[2]] * dims, False)
+        return spaces[dims]
+
+    def index_rows(arr, foreign):
+        rows = []
+        for row in arr:
+            r = []
+            for v in row:
+                i = inv.get(float(v))
+                if i is None:
+                    foreign.append(float(v))
+                    i = -1
+                r.append(i)
+            rows.append(r)
+        return rows
+
     class Scripted(BaseSampler):
-        def __init__(self):
-            super().__init__(case["bs"], max_deduplication_passes=case.get("ctor_budget", case["budget"]))
+        def __init__(self, bs, budget, default_budget=False):
+            if default_budget:
+                super().__init__(bs)
+                budget = DEFAULT_BUDGET
+            else:
+                super().__init__(bs, max_deduplication_passes=budget)
+            self.cfg_bs, self.cfg_budget = int(bs), int(budget)   # what the harness has put in force on this object
+            self.begin(None, None)
+
+        def begin(self, sess, nested):
+            self.sess, self.nested, self.nested_obs = sess, nested, None
+            self.plan = [] if sess is None else [list(b) for b in sess["script"]]
             self.reqs, self.k, self.flag_log, self.snap = [], 0, [], []
 
         def sample_batch(self, batch_size, search_space, existing_points, existing_losses):
             self.reqs.append(int(batch_size))
-            rows = plan[self.k] if self.k < len(plan) else []
+            k = self.k
             self.k += 1
+            if self.nested is not None and k == self.nested["at"]:
+                # another sampler object does a whole sample() while this one is in the middle of its own (a generator that
+                # delegates to other samplers): nothing may be shared between objects
+                ns = self.nested["session"]
+                self.nested_obs = run_session(Scripted(wrap_int(ns["bs"]), wrap_int(ns["budget"])), ns, None)[0]
+            if self.sess.get("fail_at") == k:
+                raise ScriptedFault(f"scripted generator fault at call {k}")
+            va = self.sess.get("view_of_history")
+            if va is not None and k == 0:
+                # a generator that proposes points of the history again, the way one writes it with numpy: a basic slice,
+                # i.e. a VIEW of the caller's array (script[0] holds the same rows by content)
+                return existing_points[va:va + int(batch_size)]
+            rows = self.plan[k] if k < len(self.plan) else []
             # the script holds as many rows as the *model-free* planner decided; the oracle checks sizes
-            return np.array([[val(c) for c in r] for r in rows], dtype=float).reshape(len(rows), dims)
+            return mk([[val(c) for c in r] for r in rows], self.sess["dims"], self.sess.get("draw_repr"))[0]
 
         def find_and_get_duplicates(self, new_points, existing_points):
-            self.snap.append(new_points.copy())
+            self.snap.append(np.array(new_points, copy=True))
             r = BaseSampler.find_and_get_duplicates(new_points, existing_points)
             self.flag_log.append([int(i) for i in r])
             return r
 
-    smp = Scripted()
-    if "ctor_budget" in case:
-        # the public attribute is reassigned after construction (the only way to choose it for samplers whose constructor
-        # fixes it, and the natural way to tune a restored sampler): the value in force is the assigned one
-        smp.max_deduplication_passes = case["budget"]
-    hist = np.array([[val(c) for c in r] for r in case["hist"]], dtype=float).reshape(len(case["hist"]), dims)
-    hist0 = hist.copy()
-    if case.get("prior"):
-        # the same sampler object has been used before, on ANOTHER history of the same length: nothing of that call may leak
-        ph = np.array([[alpha[c] for c in r] for r in case["prior"]["hist"]], dtype=float).reshape(len(case["prior"]["hist"]), dims)
-        plan.insert(0, case["prior"]["draw"])
-        prior_err = None
+    def configure(obj, sess, force_bs, force_budget):
+        """the public attributes are (re)assigned after construction (the only way to choose them for samplers whose
+        constructor fixes them, and the natural way to tune a restored or reused sampler): the value in force is the assigned one"""
+        if force_bs or obj.cfg_bs != sess["bs"]:
+            obj.batch_size = wrap_int(sess["bs"])
+            obj.cfg_bs = sess["bs"]
+        if force_budget or obj.cfg_budget != sess["budget"]:
+            obj.max_deduplication_passes = wrap_int(sess["budget"])
+            obj.cfg_budget = sess["budget"]
+
+    def run_session(obj, sess, reuse_hist, nested=None):
+        dims = sess["dims"]
+        obj.begin(sess, nested)
+        hvals = [[val(c) for c in r] for r in sess["hist"]]
+        if reuse_hist is not None and sess.get("inplace_hist") and reuse_hist.shape == (len(hvals), dims) and reuse_hist.flags.writeable:
+            # the caller keeps ONE history array and rewrites it in place between two calls
+            reuse_hist[...] = np.array(hvals, dtype=float).reshape(len(hvals), dims)
+            hist = base = reuse_hist
+        else:
+            hist, base = mk(hvals, dims, sess.get("hist_repr"))
+        hist0, base0 = hist.copy(), base.copy()
+        err, out = None, None
         with contextlib.redirect_stdout(io.StringIO()):
             try:
-                pout = smp.sample(None, ph, np.zeros(len(ph)))
-                if len(smp.reqs) != 1 or [[float(v) for v in r] for r in pout] != [[alpha[c] for c in r] for r in case["prior"]["draw"]]:
-                    prior_err = f"prior call (no repeats at all) asked for {smp.reqs} points / altered its draw"
+                out = obj.sample(space_for(dims), hist, np.zeros(len(hist)))
             except Exception as e:  # noqa: BLE001
-                prior_err = f"prior call (no repeats at all) raised {type(e).__name__}: {e}"
-        if prior_err:
-            return {"error": prior_err, "reqs": smp.reqs, "flags": [], "snaps": [], "out": None, "shape": None,
-                    "hist_untouched": True, "calls": smp.k}
-        smp.reqs, smp.flag_log, smp.snap = [], [], []
-    err = None
-    with contextlib.redirect_stdout(io.StringIO()):
-        try:
-            out = smp.sample(None, hist, np.zeros(len(hist)))
-        except Exception as e:  # noqa: BLE001
-            out, err = None, f"{type(e).__name__}: {e}"
-    inv = {v: i for i, v in enumerate(alpha)}
-    obs = {
-        "error": err,
-        "reqs": smp.reqs,
-        "flags": smp.flag_log,
-        "snaps": [[[inv[float(v)] for v in row] for row in s] for s in smp.snap],
-        "out": None if out is None else [[inv[float(v)] for v in row] for row in out],
-        "shape": None if out is None else list(out.shape),
-        "hist_untouched": bool((hist == hist0).all()),
-        "calls": smp.k,
-    }
+                err = f"{type(e).__name__}: {e}"
+        foreign = []
+        obs = {
+            "error": err,
+            "reqs": obj.reqs,
+            "flags": obj.flag_log,
+            "snaps": [index_rows(s, foreign) if getattr(s, "ndim", 0) == 2 else [] for s in obj.snap],
+            "out": None if out is None else (index_rows(out, foreign) if getattr(out, "ndim", 0) == 2 else []),
+            "shape": None if out is None else list(np.shape(out)),
+            "hist_untouched": bool(np.array_equal(hist, hist0) and np.array_equal(base, base0)
+                                   and np.array_equal(np.signbit(base.astype(float)), np.signbit(base0.astype(float)))),
+            "calls": obj.k,
+            "foreign": foreign[:6],
+        }
+        if nested is not None:
+            obs["nested"] = obj.nested_obs
+        if sess.get("view_of_history") is not None:
+            obs["hist_after"] = index_rows(hist, foreign)
+        return obs, hist
+
+    main = Scripted(wrap_int(case.get("ctor_bs", case["bs"])), wrap_int(case.get("ctor_budget", case["budget"])),
+                    default_budget=bool(case.get("default_budget")))
+    pre = list(case.get("pre") or [])
+    if case.get("prior"):
+        # (format of rounds 2-3, kept for old replay files) the same object used before on another history of the same length,
+        # with a draw that collides with nothing
+        pre.append({"dims": case["dims"], "bs": case["bs"], "budget": case["budget"], "hist": case["prior"]["hist"],
+                    "script": [case["prior"]["draw"]], "same_object": True})
+    pre_obs, last_hist = [], None
+    for ps in pre:
+        if ps.get("same_object", True):
+            obj = main
+            configure(obj, ps, False, False)
+        else:
+            obj = Scripted(wrap_int(ps["bs"]), wrap_int(ps["budget"]))
+        o, last_hist = run_session(obj, ps, last_hist)
+        pre_obs.append(o)
+    configure(main, case, "ctor_bs" in case, "ctor_budget" in case)
+    obs, _ = run_session(main, case, last_hist, nested=case.get("nested"))
+    obs["pre"] = pre_obs
     return obs
 
 
-def plan_case(rng, dims, nalpha, bs, budget, nhist):
-    """Build history and a script whose batches have the sizes the real code will ask for.
+def bare(case, sess):
+    """the session as a stand-alone case (same alphabet / zeros / search space), used by the planner"""
+    c = {k: v for k, v in sess.items() if k not in ("same_object", "inplace_hist")}
+    c.update(alphabet=case["alphabet"], negzero=case.get("negzero"), space=case.get("space"))
+    return c
+
+
+def plan_session(rng, case, sess, stubborn, first=None):
+    """Fill sess["script"] with batches that have the sizes the real code will ask for.
 
     Sizes are found by running the real code incrementally (no Python copy of the model is involved): the
     script is extended batch by batch with the size the implementation requested.
     """
-    # distinct values that are "close" by any tolerance-based comparison: 1e6 vs 1e6+1 (relative 1e-6), 1e-9 vs 2e-9 vs the
-    # zero below (absolute 1e-9): points are equal only if their coordinates are ==
-    alpha_pool = [-3.5, -1.0, -0.25, 0.5, 1.0, 2.75, 1e6, 1e6 + 1.0, 1e-9, 2e-9]
-    rng.shuffle(alpha_pool)
-    alpha = sorted(alpha_pool[:nalpha - 1] + [0.0])      # zero is always there: it has two float representations
+    nalpha, dims, hist = len(case["alphabet"]), sess["dims"], [tuple(h) for h in sess["hist"]]
     pt = lambda: tuple(rng.below(nalpha) for _ in range(dims))  # noqa: E731
-    hist = [pt() for _ in range(nhist)]
-    if hist and rng.below(3) == 0:
-        hist.append(rng.choice(hist))  # history with its own repeats
-    case = {"dims": dims, "alphabet": alpha, "bs": bs, "budget": budget, "hist": [list(h) for h in hist], "script": [],
-            "negzero": [bool(rng.below(2)) for _ in range(7)] if rng.below(2) else None}
-    if rng.below(4) == 0:
-        case["ctor_budget"] = rng.choice([b for b in range(7) if b != budget])
 
     def draw(cur):
         k = rng.below(10)
+        if stubborn and k < 9 and (hist or cur):
+            return tuple(rng.choice(hist + cur))  # a generator that keeps proposing points already seen
         if k < 3 and hist:
             return tuple(rng.choice(hist))  # repeat of history
         if k < 5 and cur:
             return tuple(rng.choice(cur))  # repeat within the batch / of an earlier redraw
         return pt()
 
-    if hist and rng.below(3) == 0:
-        # prior call: a history of the same length with different content, and a first draw that collides with nothing there
-        allp = [tuple(p) for p in itertools.product(range(nalpha), repeat=dims)]
-        ph = [pt() for _ in range(len(hist))]
-        free = [p for p in allp if p not in ph]
-        if ph != hist and len(free) >= bs:
-            rng.shuffle(free)
-            case["prior"] = {"hist": [list(p) for p in ph], "draw": [list(p) for p in free[:bs]]}
-    sizes = [bs]
+    sizes = [sess["bs"]]
     seen_rows = []
-    for _ in range(budget + 1):
+    sess["script"] = []
+    for _ in range(sess["budget"] + 1):
         batch = []
         for _ in range(sizes[-1]):
             batch.append(draw(seen_rows + batch))
-        case["script"].append([list(b) for b in batch])
+        if first is not None and not sess["script"]:
+            batch = [tuple(p) for p in first]
+        sess["script"].append([list(b) for b in batch])
         seen_rows += batch
-        obs = run_impl(case)
-        if len(obs["reqs"]) <= len(case["script"]):
+        obs = run_impl(bare(case, sess))
+        if len(obs["reqs"]) <= len(sess["script"]):
             break
-        sizes.append(obs["reqs"][len(case["script"])])
+        sizes.append(obs["reqs"][len(sess["script"])])
+    return sess
+
+
+def pick_alphabet(rng, nalpha):
+    pool = list(ALPHA_POOL) + [v for p in NEAR_PAIRS for v in p if v not in ALPHA_POOL] + EXTRA_POOL
+    rng.shuffle(pool)
+    chosen = []
+    if nalpha >= 3 and rng.below(5) < 3:
+        chosen = list(rng.choice(NEAR_PAIRS))   # a near pair on purpose
+    elif nalpha == 2 and rng.below(2):
+        chosen = [rng.choice([1e-9, 5e-324, 1e-323, 1e-300])]   # a value next to the zero
+    for v in pool:
+        if len(chosen) >= nalpha - 1:
+            break
+        if v not in chosen:
+            chosen.append(v)
+    return sorted(chosen[:nalpha - 1] + [0.0])      # zero is always there: it has two float representations
+
+
+def random_hist(rng, case, dims, nhist, rep):
+    """history rows over the alphabet entries that the history's dtype represents exactly"""
+    alpha = case["alphabet"]
+    sub = [i for i, v in enumerate(alpha) if exact_in(v, (rep or {}).get("dtype", "float64"))]
+    hist = [tuple(rng.choice(sub) for _ in range(dims)) for _ in range(nhist)]
+    if hist and rng.below(3) == 0:
+        hist.append(rng.choice(hist))  # history with its own repeats
+    return [list(h) for h in hist]
+
+
+def pick_reprs(rng, case):
+    """representation of the history (any dtype; its rows use the exactly representable part of the alphabet) and of the
+    generator's arrays (a dtype that holds the whole alphabet exactly, so that no draw is changed by its own container)"""
+    hrep = drep = None
+    if rng.below(2):
+        hrep = {"dtype": rng.choice(DTYPES), "layout": rng.choice(LAYOUTS_HIST)}
+    if rng.below(5) < 2:
+        ok = [d for d in DTYPES if all(exact_in(v, d) for v in case["alphabet"])]
+        drep = {"dtype": rng.choice(ok), "layout": rng.choice(LAYOUTS_DRAW)}
+    return hrep, drep
+
+
+def plan_case(rng, dims, nalpha, bs, budget, nhist, decorate=True):
+    """Build a case: alphabet, main session and (round 4) the decorations around it."""
+    case = {"dims": dims, "alphabet": pick_alphabet(rng, nalpha), "bs": bs, "budget": budget, "hist": [], "script": [],
+            "negzero": [bool(rng.below(2)) for _ in range(7)] if rng.below(2) else None}
+    if decorate and rng.below(4) == 0:
+        case["space"] = True
+    if decorate:
+        hrep, drep = pick_reprs(rng, case)
+        if hrep:
+            case["hist_repr"] = hrep
+        if drep:
+            case["draw_repr"] = drep
+    case["hist"] = random_hist(rng, case, dims, nhist, case.get("hist_repr"))
+    first = None
+    if decorate and not case.get("hist_repr") and not case.get("draw_repr") and len(case["hist"]) >= bs and rng.below(10) == 0:
+        # the first batch is a view of rows [a, a + bs) of the history array itself
+        case["view_of_history"] = rng.below(len(case["hist"]) - bs + 1)
+        first = case["hist"][case["view_of_history"]:case["view_of_history"] + bs]
+    plan_session(rng, case, case, stubborn=rng.below(6) == 0, first=first)
+    if rng.below(4) == 0:
+        case["ctor_budget"] = rng.choice([b for b in range(7) if b != budget])
+    elif decorate and budget == DEFAULT_BUDGET and rng.below(2):
+        case["default_budget"] = True       # constructed without the option: the documented default is in force
+    if not decorate:
+        return case
+    if rng.below(5) == 0:
+        case["ctor_bs"] = rng.choice([b for b in range(1, 2 * bs + 3) if b != bs])
+    if rng.below(6) == 0:
+        case["np_ints"] = rng.choice(["int64", "int32", "int8", "uint8"])
+    # ---- sessions before the main one
+    npre = [0, 0, 0, 1, 1, 2][rng.below(6)]
+    pre = []
+    for j in range(npre):
+        kind = rng.below(4)
+        ps = {"dims": dims if rng.below(5) < 3 else rng.randint(1, 3), "bs": rng.randint(1, 6), "budget": rng.randint(0, 6),
+              "same_object": rng.below(5) > 0}
+        if kind == 0 and len(case["hist"]) > 0:
+            # a history of the same length with different content, and a draw that collides with nothing there (round 2)
+            ps.update(dims=dims, bs=bs, budget=budget)
+            allp = [tuple(p) for p in itertools.product(range(nalpha), repeat=dims)] if nalpha ** dims <= 4096 else []
+            ph = [tuple(rng.below(nalpha) for _ in range(dims)) for _ in range(len(case["hist"]))]
+            free = [p for p in allp if p not in ph]
+            if [list(p) for p in ph] == case["hist"] or len(free) < bs:
+                continue
+            rng.shuffle(free)
+            ps.update(hist=[list(p) for p in ph], script=[[list(p) for p in free[:bs]]])
+        else:
+            hrep, drep = pick_reprs(rng, case) if rng.below(3) == 0 else (None, None)
+            if hrep:
+                ps["hist_repr"] = hrep
+            if drep:
+                ps["draw_repr"] = drep
+            samelen = rng.below(2) == 0
+            ps["hist"] = random_hist(rng, case, ps["dims"], len(case["hist"]) if samelen else rng.randint(0, 7), hrep)
+            plan_session(rng, case, ps, stubborn=rng.below(3) == 0)   # often one that exhausts its budget
+            if len(ps["script"]) >= 1 and rng.below(4) == 0:
+                # the generator raises at one of the calls the real code makes (first draw or a redraw)
+                ps["fail_at"] = rng.below(len(ps["script"]))
+                ps["script"] = ps["script"][:ps["fail_at"]]
+        pre.append(ps)
+    if pre:
+        case["pre"] = pre
+        last = pre[-1]
+        if (last["dims"] == dims and len(last["hist"]) == len(case["hist"]) and not last.get("hist_repr")
+                and not case.get("hist_repr") and last["hist"] != case["hist"] and case["hist"] and rng.below(3) < 2):
+            case["inplace_hist"] = True
+    # ---- a session of another object in the middle of the main one
+    if rng.below(8) == 0:
+        ns = {"dims": dims if rng.below(2) else rng.randint(1, 3), "bs": rng.randint(1, 6), "budget": rng.randint(0, 6)}
+        ns["hist"] = random_hist(rng, case, ns["dims"], rng.randint(0, 7), None)
+        plan_session(rng, case, ns, stubborn=rng.below(3) == 0)
+        case["nested"] = {"at": rng.below(len(case["script"])), "session": ns}
     return case
 
 
-def oracle(case, obs):
-    """The property itself, checked on the implementation's observations (independent of the Coq model)."""
+def oracle_session(sess, obs):
+    """The property itself, checked on the implementation's observations of one sample() call (independent of the Coq model)."""
     fails = []
+    fault = sess.get("fail_at")
     if obs["error"]:
-        return [f"exception {obs['error']}"]
-    hist = [tuple(r) for r in case["hist"]]
-    script = [[tuple(r) for r in b] for b in case["script"]]
-    bs, dims, budget = case["bs"], case["dims"], case["budget"]
-    out = [tuple(r) for r in obs["out"]]
-    if obs["shape"] != [bs, dims]:
+        if fault is None or not obs["error"].startswith("ScriptedFault"):
+            return [f"exception {obs['error']}"]
+    elif fault is not None:
+        return [f"the exception raised by the generator at its call {fault} did not reach the caller"]
+    hist = [tuple(r) for r in sess["hist"]]
+    script = [[tuple(r) for r in b] for b in sess["script"]]
+    bs, dims, budget = sess["bs"], sess["dims"], sess["budget"]
+    if obs.get("foreign"):
+        fails.append(f"a coordinate value that was never drawn appears in the batch {obs['foreign']}")
+    if fault is None and obs["shape"] != [bs, dims]:
         fails.append(f"shape {obs['shape']} != {[bs, dims]}")
-    if obs["reqs"][0] != bs:
+    if not obs["reqs"] or obs["reqs"][0] != bs:
         fails.append("first request is not batch_size")
+    if fails:
+        return fails
+    out = None if obs["out"] is None else [tuple(r) for r in obs["out"]]
     redraws = obs["reqs"][1:]
     snaps = [[tuple(r) for r in s] for s in obs["snaps"]]
-    cur = list(script[0])
+    cur = list(script[0]) if script else []
     npass = 0
     for k, flagged in enumerate(obs["flags"]):
+        if fault == 0:
+            fails.append("the generator failed at its first call, yet the batch was examined")
+            break
+        if k >= budget:
+            # a look at the batch after the last pass (e.g. to word a warning) is not a pass: nothing may be redrawn any more,
+            # which `len(redraws) != npass` below enforces
+            break
         if snaps[k] != cur:
             fails.append(f"pass {k}: working batch is not the first draw with earlier substitutions")
             break
@@ -183,17 +448,30 @@ def oracle(case, obs):
         if k >= len(redraws) or redraws[k] != len(flagged):
             fails.append(f"pass {k}: asked for {redraws[k] if k < len(redraws) else None} points, repeats {len(flagged)}")
             break
+        if fault is not None and k + 1 == fault:
+            break   # this request is the one that raised: nothing was substituted
+        if k + 1 >= len(script):
+            fails.append(f"pass {k}: a redraw was requested that the unmodified code never asks for")
+            break
         news = script[k + 1]
+        if len(news) != len(flagged):
+            # the script was sized by running the same code on the same inputs: another number of repeats now means the outcome
+            # depends on something else than history, draws and budget
+            fails.append(f"pass {k}: {len(flagged)} points redrawn where the same inputs gave {len(news)} when the script was planned")
+            break
         nxt = list(cur)
         # multiset substitution: unflagged untouched, flagged positions receive exactly the redraws
         for j, i in enumerate(flagged):
             nxt[i] = news[j]
         cur = nxt
         npass += 1
-    if not fails:
+    if not fails and fault is not None:
+        if len(obs["reqs"]) != fault + 1:
+            fails.append(f"the generator raised at its call {fault} but {len(obs['reqs'])} calls were made")
+    elif not fails:
         if len(redraws) != npass:
             fails.append("number of redraw requests differs from the number of passes that found repeats")
-        fl = set(i for f in obs["flags"] for i in f)
+        fl = set(i for f in obs["flags"][:budget] for i in f)
         first = script[0]
         for i in range(bs):
             if i not in fl and out[i] != first[i]:
@@ -206,6 +484,44 @@ def oracle(case, obs):
     if not obs["hist_untouched"]:
         fails.append("history modified")
     return fails
+
+
+def sessions_of(case, obs):
+    """[(label, session, observation)] of every sample() call the case made"""
+    res = []
+    pre = list(case.get("pre") or [])
+    if case.get("prior"):
+        pre.append({"dims": case["dims"], "bs": case["bs"], "budget": case["budget"], "hist": case["prior"]["hist"],
+                    "script": [case["prior"]["draw"]]})
+    for j, (ps, po) in enumerate(zip(pre, obs.get("pre") or [])):
+        res.append((f"reuse (earlier call {j} of {len(pre)}, {'same' if ps.get('same_object', True) else 'another'} object)", ps, po))
+    if case.get("nested"):
+        if obs.get("nested") is not None:
+            res.append(("nested (another object's call during this one)", case["nested"]["session"], obs["nested"]))
+    res.append(("", case, obs))
+    return res
+
+
+def oracle(case, obs):
+    fails = []
+    for label, sess, o in sessions_of(case, obs):
+        f = oracle_session(sess, o)
+        fails += [(f"{label}: {x}" if label else x) for x in f]
+    # the main session's failures first (they name the clause of the descriptor)
+    fails.sort(key=lambda x: x.startswith(("reuse", "nested")))
+    if case.get("nested") and obs.get("nested") is None and not fails and case["nested"]["at"] < len(obs["reqs"]):
+        fails.append("nested: the inner call did not run")
+    return fails
+
+
+def emit_view(case, obs):
+    pts = lambda rows: clist([clist([cz(c) for c in r]) for r in rows])  # noqa: E731
+    out = obs["out"] if obs["out"] is not None else []
+    return (
+        f"({cnat(case['bs'])}, {cnat(case['budget'])}, {cnat(case['view_of_history'])}, {pts(case['hist'])}, "
+        f"{clist([pts(b) for b in case['script']])}, {pts(out)}, {pts(obs.get('hist_after') or [])}, "
+        f"{clist([cnat(r) for r in obs['reqs'][1:]])})"
+    )
 
 
 def emit(case, obs):
@@ -242,58 +558,195 @@ def exhaustive_cases(max_bs, max_budget, nalpha):
     return cases
 
 
+def large_case(rng, k):
+    """sizes beyond the small ones: batches of 7-40 points, up to 12 coordinates, alphabets up to 12 values, histories around and
+    beyond 512 points (every third one)"""
+    nhist = [rng.randint(0, 60), rng.randint(100, 300), rng.randint(513, 700)][k % 3]
+    case = plan_case(rng, rng.randint(1, 12), rng.randint(2, 12), rng.randint(7, 40), rng.randint(0, 6), nhist, decorate=False)
+    if nhist > 512 and case["hist"]:
+        # make sure the OLD part of a long history matters: the first draw repeats some of its first rows
+        old = case["hist"][:max(1, len(case["hist"]) - 512)]
+        first = case["script"][0]
+        for i in range(0, len(first), 3):
+            first[i] = list(rng.choice(old))
+        case["script"] = [first]
+        plan_session_continue(rng, case)
+    return case
+
+
+def plan_session_continue(rng, case):
+    """extend a script whose first batch is fixed, batch by batch with the sizes the implementation asks for"""
+    nalpha, dims = len(case["alphabet"]), case["dims"]
+    for _ in range(case["budget"] + 1):
+        obs = run_impl(bare(case, case))
+        if len(obs["reqs"]) <= len(case["script"]):
+            break
+        need = obs["reqs"][len(case["script"])]
+        hist = case["hist"]
+        case["script"].append([list(rng.choice(hist)) if rng.below(3) == 0 else [rng.below(nalpha) for _ in range(dims)]
+                               for _ in range(need)])
+
+
+def coq_check(chk, name, lits, shard, check_fn="check_case", case_t=CASE_T):
+    """chk.coq_mismatches; a shard whose coqc process was killed from outside (rc -9 / 137: the kernel's out-of-memory killer on
+    a crowded machine) is evaluated again on its own, one process at a time, up to five times after growing pauses (15 s ... 300 s); a shard that
+    still fails is reported as before (fail closed)"""
+    import re
+    import time
+
+    bad, errors = chk.coq_mismatches(name, IMPORTS, check_fn, case_t, lits, shard=shard)
+    bad, kept = list(bad), []
+    for e in errors:
+        m = re.match(r"cases_" + re.escape(name) + r"_(\d+)\.v: rc=(-9|137)\b", e)
+        if not m:
+            kept.append(e)
+            continue
+        k = int(m.group(1))
+        sub = lits[k * shard:(k + 1) * shard]
+        for attempt, pause in enumerate((15, 45, 90, 180, 300)):
+            time.sleep(pause)
+            b2, e2 = chk.coq_mismatches(f"{name}s{k}r{attempt}", IMPORTS, check_fn, case_t, sub, shard=len(sub))
+            if not any("rc=-9" in x or "rc=137" in x for x in e2):
+                break
+        bad += [k * shard + x for x in b2]
+        kept += e2
+    return sorted(bad), kept
+
+
 def run(chk, replay=None):
     ok = chk.proof_gate()
-    cases = []
-    if replay:
-        cases = [json.loads(open(replay).read())["case"]]
-    else:
-        for f in sorted((common.CORPUS / "C12").glob("*.json")):
-            cases.append(json.loads(f.read_text())["case"])
+    # the cases are generated, run and judged block by block (a thorough run holds 40 000 cases with every working batch of
+    # every pass: kept all at once they weigh gigabytes); a block is a list of (case, is_large)
+    def blocks():
+        if replay:
+            yield [(json.loads(open(replay).read())["case"], False)]
+            return
+        corpus = [(json.loads(f.read_text())["case"], False) for f in sorted((common.CORPUS / "C12").glob("*.json"))]
+        if corpus:
+            yield corpus
         n_random = 2000 if chk.tier == "quick" else 40000
-        for _ in range(n_random):
-            r = chk.rng
-            cases.append(plan_case(r, r.randint(1, 3), r.randint(2, 4), r.randint(1, 6), r.randint(0, 6), r.randint(0, 6)))
-        cases += exhaustive_cases(2, 2, 2) if chk.tier == "quick" else exhaustive_cases(3, 3, 2) + exhaustive_cases(2, 2, 3)
-    observations = [run_impl(c) for c in cases]
-    lits = [emit(c, o) for c, o in zip(cases, observations)]
-    bad, errors = chk.coq_mismatches("C12", IMPORTS, "check_case", CASE_T, lits, shard=500)
-    hist_stats = Counter()
-    keys = set()
-    nontrivial = set()
-    for i, (c, o) in enumerate(zip(cases, observations)):
-        fails = oracle(c, o)
-        key = json.dumps([c["bs"], c["budget"], c["hist"], c["script"], c["dims"]])
-        keys.add(key)
-        npass = len(o["reqs"]) - 1
-        hist_stats[f"passes={npass}"] += 1
-        hist_stats[f"budget={c['budget']}"] += 1
-        if npass >= 1:
-            nontrivial.add(key)
-        if fails:
-            chk.violation({"kind": "oracle", "clause": fails[0].split(":")[0][:60]},
-                          {"failed": "oracle:" + fails[0], "all": fails, "case": c, "observed": o})
-        elif i in bad:
-            chk.violation({"kind": "correspondence", "name": "sample_script"},
-                          {"failed": "correspondence:sample_script (model and implementation disagree; the "
-                                     "property oracle found no failing input)", "case": c, "observed": o,
-                           "coq_case": lits[i]}, no_input=True)
-    for e in errors:
+        r = chk.rng
+        for k0 in range(0, n_random, 4000):
+            yield [(plan_case(r, r.randint(1, 3), r.randint(2, 4), r.randint(1, 6), r.randint(0, 6), r.randint(0, 6)), False)
+                   for _ in range(min(4000, n_random - k0))]
+        ex = exhaustive_cases(2, 2, 2) if chk.tier == "quick" else exhaustive_cases(3, 3, 2) + exhaustive_cases(2, 2, 3)
+        for k0 in range(0, len(ex), 4000):
+            yield [(c, False) for c in ex[k0:k0 + 4000]]
+        n_large = 24 if chk.tier == "quick" else 240
+        for k0 in range(0, n_large, 48):
+            yield [(large_case(chk.rng, k), True) for k in range(k0, min(n_large, k0 + 48))]
+
+    def all_sessions(c):
+        return [c] + list(c.get("pre") or []) + ([c["nested"]["session"]] if c.get("nested") else [])
+
+    hist_stats, reprs, r4 = Counter(), Counter(), Counter()
+    keys, nontrivial = set(), set()
+    n_cases = n_bad = n_lits = n_faulted = n_negzero = n_reused = 0
+    samples, all_errors = [], []
+    for bi, block in enumerate(blocks()):
+        cases = [c for c, _ in block]
+        observations = [run_impl(c) for c in cases]
+        # one Coq literal per session that ended normally (the model has no failing generator: those sessions are judged by
+        # the oracle only); `owner` maps a literal back to its case
+        lits, owner, vlits, vowner = [], [], [], []
+        verdicts = [oracle(c, o) for c, o in zip(cases, observations)]
+        for i, (c, o) in enumerate(zip(cases, observations)):
+            for label, sess, so in sessions_of(c, o):
+                if sess.get("fail_at") is not None:
+                    n_faulted += 1
+                elif sess.get("view_of_history") is not None and verdicts[i]:
+                    # the finding reproduces: the observation (batch, history afterwards, requests) must be the one of the
+                    # model of the finding (Section SampleView); when it does not (a repaired tree) the case is an ordinary one
+                    vlits.append(emit_view(sess, so))
+                    vowner.append(i)
+                else:
+                    lits.append(emit(sess, so))
+                    owner.append(i)
+        large = bool(block) and block[0][1]
+        bad_l, errors = coq_check(chk, f"C12{'L' if large else ''}b{bi}", lits, 8 if large else 500)
+        bad = {owner[j] for j in bad_l}
+        vbad = set()
+        if vlits:
+            vbad_l, verrors = coq_check(chk, f"C12Vb{bi}", vlits, 500, "check_case_view", VIEW_T)
+            vbad = {vowner[j] for j in vbad_l}
+            errors = errors + verrors
+        all_errors += errors
+        n_lits += len(lits) + len(vlits)
+        for i, (c, o) in enumerate(zip(cases, observations)):
+            fails = verdicts[i]
+            key = json.dumps([c["bs"], c["budget"], c["hist"], c["script"], c["dims"]])
+            keys.add(key)
+            npass = len(o["reqs"]) - 1
+            hist_stats[f"passes={npass}"] += 1
+            hist_stats[f"budget={c['budget']}"] += 1
+            if npass >= 1:
+                nontrivial.add(key)
+            if i in vbad:
+                chk.violation({"kind": "correspondence", "name": "sample_view"},
+                              {"failed": "correspondence:sample_view (the generator returned a view of the history and the property "
+                                         "fails, but not the way Model/Dedup.v Section SampleView describes the finding)",
+                               "oracle": fails, "case": c, "observed": o, "coq_case": emit_view(c, o)}, no_input=True)
+            elif fails and c.get("view_of_history") is not None:
+                r4["view_of_history_finding_reproduced"] += 1
+                chk.violation({"kind": "oracle", "input": VIEW_INPUT},
+                              {"failed": "oracle:" + fails[0], "all": fails, "case": c, "observed": o})
+            elif fails:
+                chk.violation({"kind": "oracle", "clause": fails[0].split(":")[0][:60]},
+                              {"failed": "oracle:" + fails[0], "all": fails, "case": c, "observed": o})
+            elif i in bad:
+                chk.violation({"kind": "correspondence", "name": "sample_script"},
+                              {"failed": "correspondence:sample_script (model and implementation disagree; the "
+                                         "property oracle found no failing input)", "case": c, "observed": o,
+                               "coq_case": [emit(s, so) for _, s, so in sessions_of(c, o) if s.get("fail_at") is None]}, no_input=True)
+            # ---- what the generator hit
+            pre, pobs = c.get("pre") or [], o.get("pre") or []
+            n_negzero += bool(c.get("negzero"))
+            n_reused += bool(c.get("prior") or any(p.get("same_object", True) for p in pre))
+            r4["earlier_call_on_another_object"] += any(not p.get("same_object", True) for p in pre)
+            r4["earlier_call_used_passes"] += any(len(po["reqs"]) > 1 for po in pobs)
+            r4["earlier_call_exhausted_budget"] += any(p["budget"] >= 1 and len(po["reqs"]) - 1 == p["budget"] and p.get("fail_at") is None
+                                                       for p, po in zip(pre, pobs))
+            r4["earlier_call_failed"] += any(p.get("fail_at") is not None for p in pre)
+            r4["earlier_call_other_length_or_dims"] += any(p["dims"] != c["dims"] or len(p["hist"]) != len(c["hist"]) for p in pre)
+            r4["history_array_rewritten_in_place"] += bool(c.get("inplace_hist"))
+            r4["nested_other_object"] += bool(c.get("nested"))
+            r4["first_batch_is_view_of_history"] += c.get("view_of_history") is not None
+            r4["batch_size_reassigned"] += "ctor_bs" in c
+            r4["budget_reassigned"] += "ctor_budget" in c
+            r4["default_budget"] += bool(c.get("default_budget"))
+            r4["numpy_integer_options"] += bool(c.get("np_ints"))
+            r4["real_search_space"] += bool(c.get("space"))
+            r4["alphabet_with_near_pair"] += any(p[0] in c["alphabet"] and p[1] in c["alphabet"] for p in NEAR_PAIRS)
+            r4["history_longer_than_512"] += len(c["hist"]) > 512
+            r4["batch_larger_than_10"] += c["bs"] > 10
+            for s in all_sessions(c):
+                for which in ("hist_repr", "draw_repr"):
+                    if s.get(which):
+                        reprs[f"{which}:{s[which]['dtype']}"] += 1
+                        reprs[f"{which}:{s[which]['layout']}"] += 1
+        if len(samples) < 4 and cases:
+            samples.append({"case": cases[0], "observed_requests": observations[0]["reqs"], "observed_out": observations[0]["out"]})
+        n_cases += len(cases)
+        n_bad += len(bad)
+    for e in all_errors:
         chk.violation({"kind": "correspondence", "name": "coqc"}, {"failed": "correspondence:coqc", "detail": e}, no_input=True)
     cov = {
-        "evaluations": len(cases),
+        "evaluations": n_cases,
         "distinct_nontrivial": len(nontrivial),
         "distinct": len(keys),
         "rule": "scripted-generator runs of the real BaseSampler.sample(); random cases (dims 1-3, alphabet 2-4, batch 1-6, "
                 "budget 0-6, history 0-7 incl. internal repeats; draws biased to repeat history / batch / earlier redraws) "
-                "plus exhaustive enumeration of all scripts over a tiny alphabet; non-trivial = at least one pass found a "
-                "repeat; distinct = distinct (bs,budget,history,script)",
-        "signed_zero_cases": sum(1 for c in cases if c.get("negzero")),
-        "reused_object_cases": sum(1 for c in cases if c.get("prior")),
-        "samples": [{"case": cases[i], "observed_requests": observations[i]["reqs"], "observed_out": observations[i]["out"]}
-                    for i in range(0, len(cases), max(1, len(cases) // 3))][:4],
-        "traces_validated_against_impl": len(cases) - len(bad),
-        "model_impl_disagreements": len(bad),
+                "plus exhaustive enumeration of all scripts over a tiny alphabet plus large cases (batch 7-40, dims 1-12, history "
+                "up to 700); non-trivial = at least one pass found a repeat; distinct = distinct (bs,budget,history,script) of "
+                "the main session",
+        "sample_calls_judged": n_lits + n_faulted,
+        "sample_calls_compared_with_model": n_lits,
+        "signed_zero_cases": n_negzero,
+        "reused_object_cases": n_reused,
+        "round4": dict(sorted(r4.items()), representations=dict(sorted(reprs.items()))),
+        "samples": samples,
+        "traces_validated_against_impl": n_cases - n_bad,
+        "model_impl_disagreements": n_bad,
         "distribution": dict(sorted(hist_stats.items())),
         "exhaustive": False,
         "exhaustive_part": "all scripts for dim 1, alphabet 2, batch<=2, budget<=2, history<=2 (quick); "
@@ -303,6 +756,8 @@ def run(chk, replay=None):
         cov,
         assumptions=["np.unique(axis=0) returns rows in lexicographic order", "the generator returns as many rows as requested "
                      "(numpy would raise or broadcast otherwise); coordinates are compared by ==, modelled as integers via an "
-                     "order-preserving alphabet of floats"],
+                     "order-preserving alphabet of floats",
+                     "the generator's arrays have a dtype that represents every value it draws (a container that rounds the "
+                     "generator's own values is outside the property)"],
         trusted=["modelled, not verified: numpy concatenate/unique/argwhere/fancy assignment"],
     )
